@@ -11,9 +11,7 @@ import (
 	"fmt"
 	"iter"
 	"math/rand"
-	"os"
 	"reflect"
-	"runtime/pprof"
 	"sort"
 	"strings"
 	"sync/atomic"
@@ -28,11 +26,6 @@ import (
 
 func main() {
 	r := common.Start("C02", "model_checking")
-	if pf := os.Getenv("C02_PROF"); pf != "" {
-		f, _ := os.Create(pf)
-		pprof.StartCPUProfile(f)
-		defer pprof.StopCPUProfile()
-	}
 	laySkip = layoutOf(reflect.TypeOf(listz.SkipList[int, int]{}), false)
 	layCmp = layoutOf(reflect.TypeOf(listz.SkipListWithCmp[int, int]{}), true)
 	menu, heights := selfTest(r)
@@ -103,8 +96,9 @@ func main() {
 		fmt.Printf("  %-40s states=%-6d transitions=%-8d depth=%-3d fixpoint=%v abstract=%d wall=%.2fs %s\n", res.Name, res.States, res.Transitions, res.Depth, res.FixPoint, res.Abstract, walls[i], res.CapHit)
 	}
 	space.Summarize(r, results)
+	reportProbeFailure(r)
 	r.Cov("system_wall_s", wallBy)
-	r.Cov("uncontrolled_first_inserts_resolved_by_rejection", atomic.LoadInt64(&rejections))
+	r.Cov("uncontrolled_first_inserts_selected_by_rejection_sampling", atomic.LoadInt64(&rejections))
 	if atomic.LoadInt64(&rejectFailed) > 0 {
 		r.Incomplete("first insert into an uninitialised list: a tower-height class was never produced by 2000 real draws of the list's own time-seeded generator")
 	}
@@ -114,7 +108,6 @@ func main() {
 		fmt.Sprintf("small scope: stored keys 1..%d (queries 0..5), values {0,1}, tower heights from the raw-answer menu %v; the 'very high' answer is offered only while the current top level is below %d (0 = answer not in the menu of this tier); separate ladder systems (two keys, only the very high answer, no cap) reach the maximum level 32", nkeys, menu[:nmenu], levelCap),
 		"the list's private *rand.Rand is replaced (reflect+unsafe) by rand.New(scripted Source64) only after golib created it; a nil generator is left nil. The one draw golib makes from its own time-seeded generator (first insert into a lazily initialised zero value, inside the initialising call) is resolved by rejection: the real call is repeated on a fresh replica until the enumerated height class (1 / more than 1) comes out",
 		"SkipListWithCmp comparators: rank in every permutation of the stored keys, query key 0 below and 4/5 above all stored keys; a zero-value SkipListWithCmp has no comparator and is not a start state")
-	pprof.StopCPUProfile()
 	r.Finish("states = distinct canonical dumps of the private object graph (head tower, level, len, node keys/values/tower heights, generator nil/non-nil); every transition is one real method call compared with a sorted-map model, followed by the read-only battery; distinct_nontrivial = number of distinct canonical states over all systems")
 }
 
@@ -379,7 +372,6 @@ type inst[N nodeT, L listT[N]] struct {
 	rng   *rand.Rand
 	hist  []space.Op
 	col   *collector
-	cls   string // class of the state the call in flight started in (part of the signature)
 	mk    func(*config, int) *inst[N, L]
 
 	present [nq]bool
@@ -429,8 +421,11 @@ func (x *inst[N, L]) towerOf(k int) int {
 
 func (x *inst[N, L]) Roots() []any { return []any{x.root} }
 
-// stateClass: "zero-value" while golib has not created the list's generator (the zero value,
-// also after Clear or reads), "initialised" after Init — explicit or lazy.
+// stateClass is the last component of every signature. It is taken when a failure is observed:
+// "zero-value" while golib has not created the list's generator (the zero value, also after Clear
+// or reads), "initialised" after Init — explicit or lazy. A defect of the shared insert / search
+// code therefore has one signature however the list was started; a defect of the zero-value
+// handling has another.
 func (x *inst[N, L]) stateClass() string {
 	if *x.randp() == nil {
 		return "zero-value"
@@ -533,6 +528,9 @@ func classOK(op space.Op, height int) bool {
 
 func (x *inst[N, L]) Apply(op space.Op) *space.Mismatch {
 	mm, unc, h := x.guarded(op)
+	if unc {
+		atomic.AddInt64(&rejections, 1) // counted per uncontrolled insert, not per retry: deterministic
+	}
 	if !unc || classOK(op, h) {
 		return mm
 	}
@@ -548,7 +546,6 @@ func (x *inst[N, L]) Apply(op space.Op) *space.Mismatch {
 		mm, unc, h = y.guarded(op)
 		if !unc || classOK(op, h) {
 			*x = *y
-			atomic.AddInt64(&rejections, 1)
 			return mm
 		}
 	}
@@ -557,7 +554,6 @@ func (x *inst[N, L]) Apply(op space.Op) *space.Mismatch {
 }
 
 func (x *inst[N, L]) guarded(op space.Op) (mm *space.Mismatch, unc bool, h int) {
-	x.cls = x.stateClass()
 	val, st, p := common.Catch(func() { mm, unc, h = x.step(op) })
 	if p {
 		return x.panicMismatch(val, st, "apply", op.String()), false, 0
@@ -566,7 +562,7 @@ func (x *inst[N, L]) guarded(op space.Op) (mm *space.Mismatch, unc bool, h int) 
 }
 
 func (x *inst[N, L]) panicMismatch(val any, stack, stage, during string) *space.Mismatch {
-	return &space.Mismatch{Sig: common.PanicSite(stack) + "|panic|" + stage + "|" + x.cls,
+	return &space.Mismatch{Sig: common.PanicSite(stack) + "|panic|" + stage + "|" + x.stateClass(),
 		What: fmt.Sprintf("panic %q during %s (%s, %s, model %s); golib frames: %s", fmt.Sprint(val), during, x.cfg.describe(), x.startName(), x.modelString(), golibFrames(stack))}
 }
 
@@ -599,7 +595,7 @@ func (x *inst[N, L]) modelString() string {
 }
 
 func (x *inst[N, L]) mis(sig, format string, a ...any) *space.Mismatch {
-	return &space.Mismatch{Sig: sig + "|" + x.cls, What: fmt.Sprintf(format, a...) + fmt.Sprintf(" [%s, %s, model after the step %s]", x.cfg.describe(), x.startName(), x.modelString())}
+	return &space.Mismatch{Sig: sig + "|" + x.stateClass(), What: fmt.Sprintf(format, a...) + fmt.Sprintf(" [%s, %s, model after the step %s]", x.cfg.describe(), x.startName(), x.modelString())}
 }
 
 // step executes one operation on the real list and on the model (transition oracle).
@@ -688,7 +684,6 @@ func (x *inst[N, L]) step(op space.Op) (mm *space.Mismatch, unc bool, height int
 func (x *inst[N, L]) Check() *space.Mismatch {
 	var mm *space.Mismatch
 	what := callDesc{name: "battery", n: -1}
-	x.cls = x.stateClass()
 	val, st, p := common.Catch(func() {
 		mm = x.battery(&what)
 		if mm == nil {
@@ -979,11 +974,7 @@ func probeHeight(mk func(*config) space.Instance, towerOf func(space.Instance, i
 			op.Args = op.Args[:2]
 		}
 		seq = append(seq, op.String())
-		mm := x.Apply(op)
-		if mm == nil {
-			mm = x.Check()
-		}
-		if mm != nil {
+		if mm := x.Apply(op); mm != nil {
 			return 0, &probeFailure{sysName, mm, seq, word}
 		}
 	}
@@ -995,6 +986,17 @@ type probeFailure struct {
 	mm   *space.Mismatch
 	seq  []string
 	word uint64
+}
+
+// probeFailed is reported after the searches (which normally find the same signature with a
+// counterexample inside the search alphabet; the library keeps the first case per signature).
+var probeFailed *probeFailure
+
+func reportProbeFailure(r *common.Run) {
+	if f := probeFailed; f != nil {
+		r.Violation(f.sys+"|"+f.mm.Sig, f.mm.What+fmt.Sprintf(" — start-up probe: six inserts, every height draw answered %#x", f.word),
+			map[string]any{"system": f.sys, "start": 0, "sequence": f.seq, "raw_answer": fmt.Sprintf("%#x", f.word)}, "")
+	}
 }
 
 func selfTest(r *common.Run) ([]uint64, []int) {
@@ -1052,7 +1054,7 @@ func selfTest(r *common.Run) ([]uint64, []int) {
 			if !have[hs] {
 				have[hs], pick[hs] = true, w
 			}
-			if hs > bestH {
+			if hs >= bestH { // ties: the later candidate (lower bit) is normally the taller tower
 				best, bestH = w, hs
 			}
 		}
@@ -1076,8 +1078,7 @@ func selfTest(r *common.Run) ([]uint64, []int) {
 		menu, want = []uint64{1 << 31, 1 << 30, 1 << 29, 1}, []int{1, 2, 3, 7}
 		defaultWord = 1 << 31
 		source = "read from randomLevel, NOT verified: golib failed during the start-up probe (reported as a violation)"
-		r.Violation(failed.sys+"|"+failed.mm.Sig, failed.mm.What+fmt.Sprintf(" — start-up probe: six inserts, every height draw answered %#x", failed.word),
-			map[string]any{"system": failed.sys, "start": 0, "sequence": failed.seq, "raw_answer": fmt.Sprintf("%#x", failed.word)}, "")
+		probeFailed = failed
 	}
 	// shim fidelity: a zero value keeps its nil generator, with and without Clear
 	common.Catch(func() {
